@@ -138,6 +138,7 @@ def mon_C09(run, cfg, seed):
     hft_consults = {}
     hft_nonempty = 0
     halt = False
+    flag_now = None           # the session's execution switch as the hooks last left it
     pending_accept = None     # (market) awaiting a round
     cur_u = None
     batches_left = None
@@ -177,6 +178,7 @@ def mon_C09(run, cfg, seed):
         if k == "hook" and ev[1] == "session_before":
             ses = next(s for s in run.session_cfgs if s["id"] == ev[2])
             halt = False
+            flag_now = ses["execution"]
         elif k == "hook" and ev[1] == "market_before":
             if not normal_open:
                 step_consults = {}
@@ -185,6 +187,7 @@ def mon_C09(run, cfg, seed):
                 normal_open = ses is not None and ses["placement"]
         elif k == "hookret":
             before, after = ev[3], ev[4]
+            flag_now = after[0]
             if ev[1] == "execution_after" and before[0] and not after[0]:
                 halt = True
             if ev[1] == "market_before" and (not before[0]) and after[0]:
@@ -261,6 +264,10 @@ def mon_C09(run, cfg, seed):
                 pending_accept = ev[1]
         elif k == "call.exec":
             checks += 1
+            if flag_now is False and i < aborted_at:
+                out.append(viol("C09", "C09/round-while-execution-switched-off",
+                                "a matching round runs only while the session's execution switch is on — as it stands when the order has been placed (a halt may have switched it off after an earlier order of the same batch)",
+                                {"market": ev[1], "session": ses and ses["id"], "halt_in_force": halt}, cfg, seed))
             if pending_accept is not None and pending_accept != ev[1]:
                 out.append(viol("C09", "C09/round-on-other-market",
                                 "the matching round runs on the accepted order's market",
@@ -496,6 +503,7 @@ def mon_C10(run, cfg, seed):
     events = []      # ground truth events in order: keys
     delivered = []
     pending_ids = []
+    waiting = set()      # records handed in for queued delivery and not delivered yet
     ses_open = False
     for i, ev in enumerate(log):
         k = ev[0]
@@ -515,6 +523,13 @@ def mon_C10(run, cfg, seed):
             key = ev[1]
             if key[0] in ("order", "cancel", "fill", "expiry"):
                 delivered.append(key)
+            waiting.discard(ev[2])
+            if key[0] in ("sessionEnd", "sessionBegin", "simEnd"):
+                checks += 1
+                if waiting and run.error is None:
+                    out.append(viol("C10", "C10/record-still-pending-at-session-boundary",
+                                    "records are delivered in the order of the events and no later than the next session boundary: when a session boundary record is delivered, nothing handed in before it is still waiting",
+                                    {"boundary": key[0], "waiting": len(waiting)}, cfg, seed))
         elif k == "log.direct":
             checks += 1
             nxt = log[i + 1] if i + 1 < len(log) else None
@@ -528,6 +543,7 @@ def mon_C10(run, cfg, seed):
                                 "step records are delivered synchronously", {"record": ev[1]}, cfg, seed))
         elif k == "log.write":
             pending_ids.append(ev[2])
+            waiting.add(ev[2])
             if ev[1][0] in ("stepBegin", "stepEnd"):
                 checks += 1
                 v = viol("C10", "C10/step-record-not-delivered-synchronously",
@@ -644,6 +660,15 @@ def gen_cases(ctx, prop, n):
         elif prop == "C11":
             opts = {"n_normal": rng.choice([2, 4, 8]), "n_hft": rng.choice([0, 1, 3])}
         cfg = rc.gen_config(rng, opts=opts)
+        if prop == "C10" and i % 4 == 3:
+            # a session that accepts no orders after one that did: orders with a lifetime placed in the first one
+            # expire while nothing is placed (the clock still runs), sometimes followed by a third session
+            ses = cfg["simulation"]["sessions"]
+            while len(ses) < 2:
+                ses.append(dict(ses[0], sessionName=len(ses)))
+            ses[0].update({"withOrderPlacement": True, "iterationSteps": rng.choice([2, 3, 5]),
+                           "maxNormalOrders": max(3, ses[0]["maxNormalOrders"])})
+            ses[1].update({"withOrderPlacement": False, "iterationSteps": rng.choice([4, 6, 9])})
         if (prop == "C09" and i % 5 in (1, 3)) or (prop in ("C05", "C11", "C10") and i % 4 == 1):
             # "whatever events are configured": built-in events, in particular a trading halt that
             # is still in force when its (execution) session ends and a no-execution session follows
